@@ -570,13 +570,20 @@ def en1(prog, rr):
         t = norm(k)
         return t == e or t == "id(%s)" % e
 
+    # the map, or a local alias of it
+    maps = {n for n, ds in defs.items() if ds and all("_info_map" in norm(d) and isinstance(d, ast.Attribute) for d in ds)}
+
+    def is_map(e):
+        t = norm(e)
+        return "_info_map" in t or t in maps or (t.endswith(".keys()") and t[:-7] in maps)
+
     for x in walk_local(f.node):
         ks = []
-        if isinstance(x, ast.Subscript) and "_info_map" in norm(x.value):
+        if isinstance(x, ast.Subscript) and is_map(x.value):
             ks.append(x.slice)
-        if isinstance(x, ast.Call) and call_name(x) in ("get", "setdefault", "pop") and "_info_map" in (recv_text(x) or "") and x.args:
+        if isinstance(x, ast.Call) and call_name(x) in ("get", "setdefault", "pop") and is_map(x.func.value) and x.args:
             ks.append(x.args[0])
-        if isinstance(x, ast.Compare) and any("_info_map" in norm(c) for c in x.comparators) and isinstance(x.ops[0], (ast.In, ast.NotIn)):
+        if isinstance(x, ast.Compare) and any(is_map(c) for c in x.comparators) and isinstance(x.ops[0], (ast.In, ast.NotIn)):
             ks.append(x.left)
         for k in ks:
             n += 1
